@@ -2,6 +2,7 @@ import Driver.FlowMon
 import OidcModel.Model.Flow
 import Driver.C07Wire
 import OidcModel.Model.FlowC04X
+import Driver.C07Fault
 open Kv Drv
 
 namespace Drv.Flow
@@ -111,6 +112,10 @@ def modelStep (m : ModSt) (l : Line) (now : Int) : ModSt × String :=
     let (s, o) := _root_.Flow.step now m.st op
     ({ m with st := s }, showOut o)
   | "refresh" =>
+    -- deep4-C07: a storage fault at the k-th call of the request / a concurrent pair (Model/C07Fault.lean)
+    if has l "w.body" && has l "fault.at" then let (s, o) := Wire.modelFault now m.st m.router l; ({ m with st := s }, o) else
+    if has l "w.body" && bool l "conc.second" then ({ m with pending := "" }, m.pending) else
+    if has l "w.body" && has l "conc" then let (s, oA, oB) := Wire.modelPair now m.st m.router l; ({ m with st := s, pending := oB }, oA) else
     if has l "w.body" then let (s, o) := Wire.modelToken now m.st m.router l; ({ m with st := s }, o) else   -- deep3-C07
     let (s, o) := _root_.Flow.step now m.st (.refresh m.router (refreshReq l) (str l "auth" == "assertion"))
     ({ m with st := s }, showOut o)
@@ -122,7 +127,7 @@ def step (prop : String) (fs : FullSt) (l : Line) : FullSt × String :=
   let (m0, o0) := modelStep fs.mod l (int l "now0")
   let (_, o1) := modelStep fs.mod l (int l "now1")
   let stable := o0 == o1
-  let obsS := if has l "w.body" then Wire.showObsX l else showObs l
+  let obsS := if has l "w.body" && has l "o.http" then Wire.showObsF l else if has l "w.body" then Wire.showObsX l else showObs l
   let agree := !stable || str l "op" == "reset" || str l "op" == "login" || str l "op" == "reregister" || o0 == obsS
   ({ mon := mon', mod := m0 },
    s!"case={str l "case"} class={str l "op"}:{obsString l} model={if stable then o0 else "unstable"} observed={obsS} monitor={showMon v} agree={if agree then 1 else 0}")
